@@ -42,7 +42,56 @@ CHECKS = {
             'actual directory listing over long histories.', '5/C18'),
 }
 
-NA = {}
+CHECKS.update({
+    'C01': ('syntax-tree width/tag table rules over the column builders (WID-1/2, TBL-1, LIT-1)',
+            'Narrow claim: decides necessary structural conditions of the round trip (bound / element type / '
+            'tag agreement per branch, identity tags, NULL markers). The round trip itself quantifies over '
+            'runtime values and is NOT decided.', '5/C01'),
+    'C03': ('MIR order rule + syntax-tree semantic tables (ORD-1, TBL-2, TBL-3)',
+            'Narrow claim: sorted dictionary before index assignment, codec-op property tables one-sidedly '
+            'safe, comparison registry rows mutually consistent. Comparison results, constant translation, '
+            'NULL semantics NOT decided.', '5/C03'),
+    'C05': ('interprocedural MIR taint of LIMIT/OFFSET values (FLW-1), who-reads-offset (ORD-2)',
+            'Narrow claim: no unchecked arithmetic on the limit sentinel / offset and single application of the '
+            'offset. Sort order, NULL placement, top-n and merge NOT decided.', '5/C05'),
+    'C07': ('sibling-table comparison of the decode routines (TBL-4/5), MIR coverage rule (FLW-2), OPT-1, LIT-2',
+            'Narrow claim: the compaction-only decode routine handles what its siblings handle, compaction '
+            'covers all names/parts/types, flush never unwraps an evictable payload. Value preservation of '
+            're-encoding NOT decided.', '5/C07'),
+    'C13': ('MIR order/lock rules + literal agreement (ORD-7, TBL-6, WHO-3, LIT-2, FLW-2)',
+            'Narrow claim: catalogue rows travel in the same segment, ingestion siblings agree, only they '
+            'write the name set, catalogue literals agree. Exactly-once listing over histories NOT decided.',
+            '5/C13'),
+    'C14': ('MIR dominance/dataflow on the blob envelope (FLW-9, WHO-4) + syntax-tree codec table comparison '
+            'cross-checked with the capnp schemas (TBL-7/8/9), PAN-1',
+            'Decides that the payload is returned only after length, version, total-length and SHA-256 checks '
+            'over exactly the returned bytes, that every file goes through the envelope and that the three '
+            'hand-written codecs compose to the identity on variants/members/fields. Structural equality for '
+            'all values NOT decided.', '5/C14'),
+    'C15': ('MIR dataflow on path construction (FLW-10/11), constant folding of the name predicates on the '
+            'forbidden characters (SET-1/2), routing-table siblings (ORD-8)',
+            'Narrow claim: paths are built only from sanitised parts, predicates exclude separators/NUL and '
+            'bound the length, modified names get the digest, columns sorted before grouping. The range lookup '
+            'itself NOT decided.', '5/C15'),
+    'C16': ('syntax-tree codec/width tables (TBL-8/10, WID-3), MIR widening rule (FLW-12), LIT-1',
+            'Narrow claim: variants map to members the reader maps back, each narrow layout guarded by its own '
+            'type bounds, double-delta only when first differences fit i64, widen before subtracting. XOR float '
+            'codec and delta arithmetic NOT decided.', '5/C16'),
+    'C17': ('MIR rules on the HTTP handlers (ERV-3, ORD-9) + JSON/type-signature tables (TBL-11)',
+            'Narrow claim: every query handler maps errors to a non-2xx response, insert answers 200 only after '
+            'ingestion completed, JSON renderers and type-signature branches agree. Value equality between '
+            'HTTP and embedded results NOT decided.', '5/C17'),
+})
+
+NA = {
+    'C02': 'not applicable to static analysis: equality of query results across physical layouts (batching, '
+           'compaction state, batch size, thread count) is a relation between runtime values produced by '
+           'different data-dependent plans; no clause of it is visible in the shape of the code and no sound '
+           'static argument is in reach (DESIGN.md section 9)',
+    'C04': 'not applicable to static analysis: group identity, per-group COUNT/MIN/MAX/AVG values and the '
+           'sorted-merge precondition are properties of computed data; the only structural part (checked SUM) '
+           'is decided under C06 (DESIGN.md section 9)',
+}
 
 
 def main():
